@@ -604,7 +604,7 @@ func TestC10(t *testing.T) {
 				Kind string `json:"kind"`
 			}
 			_ = json.Unmarshal(raw, &probe)
-			if probe.Kind == "hist" || probe.Kind == "params" {
+			if probe.Kind == "hist" || probe.Kind == "params" || probe.Kind == "msg" {
 				continue
 			}
 			var in Input
